@@ -22,13 +22,17 @@ def EncD (A : Array (WNode J)) (t : Nat) : Prop :=
   (t % 2 = 1 ∧ ∃ a b, A[t / 2]? = some (.case a b) ∧
     ((hiddenAt A a = none ∧ (hiddenAt A b).isSome) ∨ ((hiddenAt A a).isSome ∧ hiddenAt A b = none)))
 
-structure DecFacts (nameOf : J → String) (A : Array (WNode J)) (plan : Plan) (an : Array Annot) : Prop where
+/-- what conversion establishes (shared by redemption and commitment time) -/
+structure DecFacts0 (nameOf : J → String) (A : Array (WNode J)) (plan : Plan) (an : Array Annot) : Prop where
   size : plan.size = A.size
   ansize : an.size = A.size
   node : ∀ (i : Nat) (n : WNode J), A[i]? = some n → ∃ nd, plan[i]? = some nd ∧ convNode nameOf A n = .ok nd
   ok : ∀ (i : Nat) (n : WNode J), A[i]? = some n → n.Ok i
   hdist : ∀ (i j : Nat) (r r' : List Bool), A[i]? = some (.hidden r) → A[j]? = some (.hidden r') →
     bitsNat r = bitsNat r' → i = j
+
+structure DecFacts (nameOf : J → String) (A : Array (WNode J)) (plan : Plan) (an : Array Annot) : Prop
+    extends DecFacts0 nameOf A plan an where
   ihr : ∀ (i j : Nat) (a b : Annot), hiddenAt A i = none → hiddenAt A j = none → an[i]? = some a →
     an[j]? = some b → a.ihr = b.ihr → i = j
 
@@ -57,7 +61,7 @@ theorem encPhi_even (A : Array (WNode J)) (i : Nat) : encPhi A (2 * i) = i := by
   simp [encPhi, two_mul_mod, two_mul_div]
 
 theorem enc_ch {nameOf : J → String} {A : Array (WNode J)} {plan : Plan} {an : Array Annot}
-    (F : DecFacts nameOf A plan an) (t : Nat) (ht : EncD A t) :
+    (F : DecFacts0 nameOf A plan an) (t : Nat) (ht : EncD A t) :
     wireChildren A (encPhi A t) = (encChildren plan true t).map (encPhi A) := by
   rcases ht with ⟨h2, hlt, hvis⟩ | ⟨h2, a, b, hA, hh⟩
   · obtain ⟨i, rfl⟩ : ∃ i, t = 2 * i := ⟨t / 2, by omega⟩
@@ -92,7 +96,7 @@ theorem enc_ch {nameOf : J → String} {A : Array (WNode J)} {plan : Plan} {an :
       simp [wireChildren, hr]
 
 theorem enc_closed {nameOf : J → String} {A : Array (WNode J)} {plan : Plan} {an : Array Annot}
-    (F : DecFacts nameOf A plan an) (t : Nat) (ht : EncD A t) :
+    (F : DecFacts0 nameOf A plan an) (t : Nat) (ht : EncD A t) :
     ∀ c ∈ encChildren plan true t, EncD A c ∧ encPhi A c < encPhi A t ∧
       (if c % 2 = 0 then c + 1 else c - 1) < (if t % 2 = 0 then t + 1 else t - 1) := by
   rcases ht with ⟨h2, hlt, hvis⟩ | ⟨h2, a, b, hA, hh⟩
@@ -160,14 +164,14 @@ theorem enc_closed {nameOf : J → String} {A : Array (WNode J)} {plan : Plan} {
     rw [hch]; intro c hc; cases hc
 
 theorem enc_key_even {nameOf : J → String} {A : Array (WNode J)} {plan : Plan} {an : Array Annot}
-    (F : DecFacts nameOf A plan an) (i : Nat) (hlt : i < A.size) :
+    (F : DecFacts0 nameOf A plan an) (i : Nat) (hlt : i < A.size) :
     ∃ a, an[i]? = some a ∧ encKey plan an true (2 * i) = some (false, a.ihr) := by
   have : i < an.size := by rw [F.ansize]; exact hlt
   refine ⟨an[i], Array.getElem?_eq_getElem this, ?_⟩
   simp [encKey, two_mul_mod, two_mul_div, Array.getElem?_eq_getElem this]
 
 theorem enc_key_odd {nameOf : J → String} {A : Array (WNode J)} {plan : Plan} {an : Array Annot}
-    (F : DecFacts nameOf A plan an) (i a b : Nat) (hA : A[i]? = some (.case a b))
+    (F : DecFacts0 nameOf A plan an) (i a b : Nat) (hA : A[i]? = some (.case a b))
     (hh : (hiddenAt A a = none ∧ (hiddenAt A b).isSome) ∨ ((hiddenAt A a).isSome ∧ hiddenAt A b = none)) :
     ∃ r, hiddenAt A (encPhi A (2 * i + 1)) = some r ∧
       encKey plan an true (2 * i + 1) = some (true, r) := by
@@ -192,18 +196,18 @@ theorem enc_key {nameOf : J → String} {A : Array (WNode J)} {plan : Plan} {an 
   rcases ht with ⟨h2, hlt, hvis⟩ | ⟨h2, a, b, hA, hh⟩
   · obtain ⟨i, rfl⟩ : ∃ i, t = 2 * i := ⟨t / 2, by omega⟩
     rw [two_mul_div] at hlt hvis
-    obtain ⟨x, hx, hk⟩ := enc_key_even F i hlt
+    obtain ⟨x, hx, hk⟩ := enc_key_even F.toDecFacts0 i hlt
     exact .inl ⟨x, by rw [encPhi_even]; exact hvis, by rw [encPhi_even]; exact hx, hk⟩
   · obtain ⟨i, rfl⟩ : ∃ i, t = 2 * i + 1 := ⟨t / 2, by omega⟩
     rw [two_mul_succ_div] at hA
-    exact .inr (enc_key_odd F i a b hA hh)
+    exact .inr (enc_key_odd F.toDecFacts0 i a b hA hh)
 
 theorem enc_simHyp {nameOf : J → String} {A : Array (WNode J)} {plan : Plan} {an : Array Annot}
     (F : DecFacts nameOf A plan an) :
     SimHyp (encPhi A) (EncD A) (wireChildren A) (encChildren plan true) (fun i => some i)
       (encKey plan an true) (fun i => i) (fun t => if t % 2 = 0 then t + 1 else t - 1) where
-  ch := enc_ch F
-  closed := fun t ht c hc => (enc_closed F t ht c hc).1
+  ch := enc_ch F.toDecFacts0
+  closed := fun t ht c hc => (enc_closed F.toDecFacts0 t ht c hc).1
   isSome := by
     intro t ht
     rcases enc_key F t ht with ⟨a, _, _, hk⟩ | ⟨r, _, hk⟩ <;> simp [hk]
@@ -239,8 +243,8 @@ theorem enc_simHyp {nameOf : J → String} {A : Array (WNode J)} {plan : Plan} {
         obtain ⟨rb, hrb, e1⟩ := hiddenAt_some hv
         obtain ⟨rb', hrb', e2⟩ := hiddenAt_some hv'
         exact F.hdist _ _ rb rb' hrb hrb' (by rw [e1, e2, e])
-  rk1 := fun t ht c hc => (enc_closed F t ht c hc).2.1
-  rk2 := fun t ht c hc => (enc_closed F t ht c hc).2.2
+  rk1 := fun t ht c hc => (enc_closed F.toDecFacts0 t ht c hc).2.1
+  rk2 := fun t ht c hc => (enc_closed F.toDecFacts0 t ht c hc).2.2
 
 #print axioms enc_simHyp
 end Prog
